@@ -57,7 +57,17 @@ def polarity(ctx, fx, b, operand, depth=0):
 def run(ctx):
     ctx.explanation = EXPL
     ctx.assumptions = ["polling a clone of a futures Shared drives the inner oneshot receiver and caches its output"]
-    fx = ctx.facts("tokio")
+    cfgs = ["tokio"] if ctx.tier == "quick" else ["tokio", "smol", "asyncstd"]
+    for cfg in cfgs:
+        fx = ctx.facts(cfg) if cfg == "tokio" else ctx.try_facts(cfg)
+        if fx is None:
+            continue
+        ctx.cfg_tag = cfg
+        run_cfg(ctx, fx)
+    return core.finish(ctx)
+
+
+def run_cfg(ctx, fx):
     for q, want in QUERIES.items():
         f = fx.fn(q)
         if not ctx.require(f is not None, "R14.1", q, "liveness query %s not found" % q):
@@ -106,4 +116,4 @@ def run(ctx):
     ctx.floor("R14.2", "registry operations consulting the liveness queries", len(uses), 4)
     for k, v in sorted(uses.items()):
         ctx.ok("R14.2", "registry-uses-query:" + k, fx.fn(k)["loc"] if fx.fn(k) else None, v)
-    return core.finish(ctx)
+    return None
